@@ -31,11 +31,11 @@ def run(tier):
   rep.assumptions = ['probe configurables generated per signature shape; tuple binding keys']
   if tier == 'quick':
     cc.model_check(rep, 'MC_Inject_quick')
-    cc.replay_behaviours(rep, 'GinCore_Sim_inject', num=250, nontrivial=_nontrivial)
+    cc.replay_behaviours(rep, 'GinCore_Sim_inject', num=250, nontrivial=_nontrivial, generate=1500)
   else:
     cc.model_check(rep, 'MC_Inject_quick')
     cc.model_check(rep, 'MC_Inject_thorough', timeout=3400)
-    cc.replay_behaviours(rep, 'GinCore_Sim_inject', num=4000, nontrivial=_nontrivial)
+    cc.replay_behaviours(rep, 'GinCore_Sim_inject', num=4000, nontrivial=_nontrivial, generate=16000)
   return rep.finish()
 
 
